@@ -11,7 +11,7 @@
 Require Import List ZArith Bool String.
 Import ListNotations.
 From Burrow Require Import Http HttpProofs.
-From Burrow Require AMap Storage.
+From Burrow Require AMap F32 Eval Storage StorageProofs.
 From BurrowGen Require Import RouteTable.
 Open Scope Z_scope.
 
@@ -74,6 +74,60 @@ Theorem C16_storage_backend_typed_any_state :
     backend_typed (storage_backend intern name_of cf now st ev ready).
 Proof. exact storage_backend_typed_any_state. Qed.
 Print Assumptions C16_storage_backend_typed_any_state.
+
+(* The evaluator half: for every storage state reached by a run of a well-formed history (1 <= intervals <= 2^24, at
+   most 2^24 partitions per group) the status the evaluator model produces for any cluster and group -- StorageFetchConsumer
+   on that state, nil => NOTFOUND, otherwise Eval.eval_group over the reply, filtered for the problems-only view -- is a
+   non-nil status that encoding/json can encode: the group's, every listed partition's and Maxlag's completeness values
+   are finite float32.  (Pieces: StorageWindows.storage_reply_windows, EvalProofs.eval_partition_no_crash,
+   JsonProofs.group_finite over F32Proofs; the Flocq/Reals axioms enter through the float32 division.) *)
+Theorem C16_evaluator_backend_typed :
+  forall cf cls h st reps,
+    (1 <= Storage.cf_intervals cf)%nat -> Z.of_nat (Storage.cf_intervals cf) <= 2 ^ 24 ->
+    StorageProofs.wf_hist h ->
+    Storage.run cf (Storage.init_state cls) h = Some (st, reps) ->
+    groups_bounded st ->
+    forall now minimum allowed enow c g a,
+      eval_ok (evaluator_model cf now st minimum allowed enow c g a) = true.
+Proof. exact evaluator_backend_typed. Qed.
+Print Assumptions C16_evaluator_backend_typed.
+
+(* both halves: the composed storage + evaluator backend keeps the contract, with no assumption beyond those bounds *)
+Theorem C16_backend_typed_reachable :
+  forall (intern : bytes -> Z) (name_of : Z -> bytes) cf cls h st reps,
+    (1 <= Storage.cf_intervals cf)%nat -> Z.of_nat (Storage.cf_intervals cf) <= 2 ^ 24 ->
+    StorageProofs.wf_hist h ->
+    Storage.run cf (Storage.init_state cls) h = Some (st, reps) ->
+    groups_bounded st ->
+    forall now minimum allowed enow ready,
+      backend_typed (composed_backend intern name_of cf now st minimum allowed enow ready).
+Proof. exact backend_typed_reachable. Qed.
+Print Assumptions C16_backend_typed_reachable.
+
+(* ... hence no handler panics, and the server answers every method and path, over that backend *)
+Theorem C16_handle_total_reachable :
+  forall (intern : bytes -> Z) (name_of : Z -> bytes) cf cls h st reps,
+    (1 <= Storage.cf_intervals cf)%nat -> Z.of_nat (Storage.cf_intervals cf) <= 2 ^ 24 ->
+    StorageProofs.wf_hist h ->
+    Storage.run cf (Storage.init_state cls) h = Some (st, reps) ->
+    groups_bounded st ->
+    forall now minimum allowed enow ready (r : route) (ps : params) (reqbody : Z) (cfg : tree),
+      snd (handle r ps reqbody (composed_backend intern name_of cf now st minimum allowed enow ready) cfg) <> Crash.
+Proof. exact handle_total_reachable. Qed.
+Print Assumptions C16_handle_total_reachable.
+
+Theorem C16_serve_total_reachable :
+  forall (intern : bytes -> Z) (name_of : Z -> bytes) tbl opts, route_table_ok tbl opts = true ->
+  forall cf cls h st reps,
+    (1 <= Storage.cf_intervals cf)%nat -> Z.of_nat (Storage.cf_intervals cf) <= 2 ^ 24 ->
+    StorageProofs.wf_hist h ->
+    Storage.run cf (Storage.init_state cls) h = Some (st, reps) ->
+    groups_bounded st ->
+    forall now minimum allowed enow ready (method path : bytes) (reqbody : Z) (cfg : tree),
+      snd (serve (compile_table tbl) method path reqbody
+                 (composed_backend intern name_of cf now st minimum allowed enow ready) cfg) <> Crash.
+Proof. exact serve_total_reachable. Qed.
+Print Assumptions C16_serve_total_reachable.
 
 (* ---- "existing resources get 200 and a JSON object with error=false" ---- *)
 
@@ -294,3 +348,13 @@ Example C16_ex_storage_backend_typed :
   backend_typed (storage_backend (fun _ => 1) (fun _ => []) example_cf 0 example_state
                                  (fun _ _ _ => Some (mk_gstatus 1 true)) true).
 Proof. exact storage_backend_typed_example. Qed.
+
+(* a reachable storage state with a live group: the bounds hold, FetchConsumer answers a non-empty reply, and the
+   evaluator model answers status OK for the group and NOTFOUND for an unknown one *)
+Example C16_ex_reachable_state :
+  (exists reps, Storage.run reach_cf (Storage.init_state [1]) reach_hist = Some (reach_state, reps)) /\
+  StorageProofs.wf_hist reach_hist /\ groups_bounded reach_state /\
+  (exists l, Storage.fetch_consumer reach_cf 1005 reach_state 1 7 = Storage.Done reach_state (Storage.RConsumer l) /\ l <> []) /\
+  evaluator_model reach_cf 1005 reach_state F32.f32_zero 0 1005 1 7 true = Some (mk_gstatus 1 true) /\
+  evaluator_model reach_cf 1005 reach_state F32.f32_zero 0 1005 1 8 true = Some (mk_gstatus 0 true).
+Proof. exact reachable_state_example. Qed.
